@@ -185,38 +185,77 @@ def r_ids(repo, rep, R='R15.3'):
     trav = jm.get('_ConvertToJiggXML.process.traverse')
     p = trav.args.args[0].arg
     w = '%s:%s traverse' % (JX, trav.lineno)
-    first = trav.body
-    # the id is built before any recursion
-    id_assign = [s for s in trav.body if isinstance(s, ast.Assign) and isinstance(s.value, ast.JoinedStr) and 'self.spid' in src(s.value)]
-    rec_calls = [n for n in ast.walk(trav) if isinstance(n, ast.Call) and src(n.func) == 'traverse']
-    ok = len(id_assign) == 1 and all(n.lineno > id_assign[0].lineno for n in rec_calls) and src(id_assign[0].value).count('self.spid') == 1
-    idvar = id_assign[0].targets[0].id if id_assign else None
-    sets = set_calls(trav)
-    ok = ok and any(src(a.get('id', ast.Constant(None))) == idvar for a in sets.values())
-    uses = [n for n in ast.walk(trav) if isinstance(n, ast.Attribute) and src(n) == 'self.spid']
-    rep.check(ok and len(uses) == 1, R, w, 'jigg:id-once', 'each span id is built exactly once per span, before recursing, and written as the span\'s id',
-              'span id is not built once before recursion (%d reads of the counter)' % len(uses))
+
+    def on_call(st, t, node):
+        if t[1][0] == 'func' and t[1][1] == trav.name and t[2]:
+            a = t[2][0]
+            tag = a[2] if a[0] == 'attr' and a[1] == N(p) else show(a)
+            st.data.setdefault('order', []).append(tag)
+            return ('tuple', (('sym', 'id-of', tag), ('sym', 'start-of', tag)))
+        return None
+    kinds = {}
+    for st, o in SymExec(trav, on_call=on_call, init_env={trav.name: ('func', trav.name, id(trav))}, watch_attrs=('spid',)).run():
+        if o != 'return':
+            continue
+        conds = [(c, pol) for c, pol, _ in st.conds]
+        reads = [i for i, e in enumerate(st.events) if e[0] == 'getattr' and e[2] == 'spid' and e[1] == N('self')]
+        recs = [i for i, e in enumerate(st.events) if e[0] == 'call' and e[1][1][0] == 'func' and e[1][1][1] == trav.name]
+        sets = {}
+        for e in st.events:
+            if e[0] == 'call' and e[1][1][0] == 'attr' and e[1][1][2] == 'set' and len(e[1][2]) == 2 and e[1][2][0][0] == 'const':
+                sets[e[1][2][0][1]] = e[1][2][1]
+        idt = sets.get('id')
+        once = len(reads) == 1 and (not recs or reads[0] < recs[0]) and idt is not None and idt[0] == 'fstr' and \
+            any(isinstance(x, tuple) and x == A(N('self'), 'spid') for x in idt[1])
+        ret_ok = st.ret is not None and st.ret[0] == 'tuple' and st.ret[1][0] == idt
+        leaf = (A(N(p), 'is_leaf'), True) in conds
+        unary = (A(N(p), 'is_unary'), True) in conds or (('unop', 'not', A(N(p), 'is_unary')), False) in conds
+        kind = 'leaf' if leaf else ('unary' if unary else 'binary')
+        child = sets.get('child')
+        if kind == 'leaf':
+            child_ok = child is None and 'terminal' in sets
+        elif kind == 'unary':
+            child_ok = child == ('sym', 'id-of', 'left_child') or child == ('sym', 'id-of', 'child')
+        else:
+            L, Rr = ('sym', 'id-of', 'left_child'), ('sym', 'id-of', 'right_child')
+            child_ok = child in (('binop', '+', L, ('binop', '+', C(' '), Rr)), ('binop', '+', ('binop', '+', L, C(' ')), Rr),
+                                 ('fstr', (L, ' ', Rr)), ('call', A(C(' '), 'join'), (('list', (L, Rr)),), ()), ('call', A(C(' '), 'join'), (('tuple', (L, Rr)),), ())) \
+                and st.data.get('order') == ['left_child', 'right_child']
+        kinds[kind] = (once, ret_ok, child_ok, show(child)[:60] if child else None)
+    for kind in ('leaf', 'unary', 'binary'):
+        if kind not in kinds:
+            rep.violation(R, w, 'jigg:traverse:%s' % kind, 'traverse has no %s path' % kind)
+            continue
+        once, ret_ok, child_ok, ctext = kinds[kind]
+        rep.check(once, R, w, 'jigg:id-once:' + kind, '%s span: the id is built exactly once, before recursing, from the advancing counter, and written as the span id' % kind,
+                  '%s span: the id counter is not read exactly once before recursion / not written as id' % kind)
+        rep.check(ret_ok, R, w, 'jigg:return-id:' + kind, '%s span returns its own id to the parent' % kind, '%s span does not return its own id first' % kind)
+        rep.check(child_ok, R, w, 'jigg:child-list:' + kind,
+                  '%s span: %s' % (kind, 'carries a terminal reference and no child list' if kind == 'leaf' else 'child is the blank-joined list of the ids its children returned, left first'),
+                  '%s span: child attribute is %s' % (kind, ctext))
     sp = jm.get('_ConvertToJiggXML.spid')
-    t = src(sp)
-    rep.check('self._spid += 1' in t and 'return self._spid' in t and any('property' in src(d) for d in sp.decorator_list), R,
-              '%s:%s spid' % (JX, sp.lineno), 'jigg:counter', 'the id counter advances on every read', 'spid does not advance on every read')
-    rets = [src(n.value).replace(' ', '').strip('()') for n in ast.walk(trav) if isinstance(n, ast.Return) and n.value is not None]
-    rep.check(rets == ['%s,start_of_span' % idvar], R, w, 'jigg:return-id', 'traverse returns its own span id to the parent (for child lists and root)',
-              'traverse returns %s' % rets)
-    ttxt = src(trav)
-    rep.check("childid += ' ' + tmp" in ttxt and "xml_node.set('child', childid)" in ttxt, R, w, 'jigg:child-list',
-              'child is the blank-joined list of the children\'s own ids, left first', 'child attribute is not assembled from the ids returned by the recursive calls')
+    ok = any('property' in src(d) for d in sp.decorator_list)
+    for st, o in SymExec(sp).run():
+        augs = [e for e in st.events if e[0] == 'aug' and e[1] == A(N('self'), '_spid') and e[2] == '+' and e[3] == C(1)]
+        ok = ok and len(augs) == 1 and st.ret == A(N('self'), '_spid')
+    rep.check(ok, R, '%s:%s spid' % (JX, sp.lineno), 'jigg:counter', 'the id counter advances by one on every read', 'spid does not advance on every read')
     proc = jm.get('_ConvertToJiggXML.process')
-    ptxt = src(proc)
-    rep.check("res.set('root', str(id))" in ptxt.replace('"', "'") and 'id, _ = traverse(tree)' in ptxt, R, '%s:%s process' % (JX, proc.lineno), 'jigg:root',
-              'root refers to the id returned for the top span', 'root is not set from the top span\'s id')
+    okroot = False
+    for st, o in SymExec(proc, unroll=1).run():
+        for e in st.events:
+            if e[0] == 'call' and e[1][1][0] == 'attr' and e[1][1][2] == 'set' and len(e[1][2]) == 2 and e[1][2][0] == C('root'):
+                v = e[1][2][1]
+                inner = v[2][0] if v[0] == 'call' and v[1] == N('str') and v[2] else v
+                if inner[0] == 'unpack' and inner[2] == 0 and inner[1][0] == 'call' and inner[1][1][0] == 'func' and inner[1][2] and inner[1][2][0] == N(proc.args.args[1].arg):
+                    okroot = True
+    rep.check(okroot, R, '%s:%s process' % (JX, proc.lineno), 'jigg:root', 'root refers to the id returned for the top span of the tree', 'root is not set from the id returned by traverse(tree)')
     tj = jm.get('to_jigg_xml')
-    ttxt = src(tj)
     conv_in_outer = False
     for l in [x for x in ast.walk(tj) if isinstance(x, ast.For)]:
-        for s in l.body:
-            if isinstance(s, ast.Assign) and '_ConvertToJiggXML(' in src(s.value):
-                inner = [q for q in l.body if isinstance(q, ast.For) and 'converter.process' in src(q)]
+        for s_ in l.body:
+            if isinstance(s_, ast.Assign) and isinstance(s_.value, ast.Call) and src(s_.value.func) == '_ConvertToJiggXML':
+                cv = src(s_.targets[0])
+                inner = [q for q in l.body if isinstance(q, ast.For) and any(isinstance(n, ast.Call) and src(n.func) == cv + '.process' for n in ast.walk(q))]
                 conv_in_outer = bool(inner)
     rep.check(conv_in_outer, R, '%s:%s to_jigg_xml' % (JX, tj.lineno), 'jigg:converter-per-sentence',
               'one id counter per sentence, shared by all its n-best trees (ids unique within the sentence)', 'the converter is not created once per sentence')
@@ -291,8 +330,12 @@ def r_ccg2lambda_vocab(repo, rep, R='R15.4'):
                   % (fmt, [show(x) if x else 'default False' for x in (got or [])]))
     jm = repo.module(JX)
     trav = jm.get('_ConvertToJiggXML.process.traverse')
-    rep.check("node.op_symbol if self.use_symbol else node.op_string" in src(trav), R, '%s:%s traverse' % (JX, trav.lineno), 'jigg:rule-select',
-              'the rule attribute is op_symbol when use_symbol else op_string', 'rule attribute selection changed')
+    pnode = trav.args.args[0].arg
+    want_rule = ('ifexp', A(N('self'), 'use_symbol'), A(N(pnode), 'op_symbol'), A(N(pnode), 'op_string'))
+    rules_set = {e[1][2][1] for st, o in SymExec(trav, unroll=1).run() for e in st.events
+                 if e[0] == 'call' and e[1][1][0] == 'attr' and e[1][1][2] == 'set' and len(e[1][2]) == 2 and e[1][2][0] == C('rule')}
+    rep.check(rules_set == {want_rule}, R, '%s:%s traverse' % (JX, trav.lineno), 'jigg:rule-select',
+              'the rule attribute is op_symbol when use_symbol else op_string', 'rule attribute is %s' % [show(x) for x in rules_set])
     return len(feeds)
 
 
